@@ -714,6 +714,10 @@ func TestVerifC14(t *testing.T) {
 	// shared issuers: same intermediates under different leaves (de-duplication)
 	pool = append(pool, sub{e.pki.chain(2, false, 0), false})
 
+	// histories of the fourth wave of seeded changes (zz_verif_c14w4_test.go)
+	e.twoLogsOneProcess()
+	e.joinedReadFirstCancelled()
+
 	lens := []int{1, 2, 127, 128, 255, 256, 257, 65535, 65536}
 	for ci, cc := range c14Caches() {
 		// fresh pair of instances per cache configuration
